@@ -300,8 +300,10 @@ func (c connectUnaryServerProtocol) extractProtocolResponseHeaders(statusCode in
 		}
 		endUnmarshaller = func(_ Codec, buf *bytes.Buffer, end *responseEnd) {
 			var wireErr connectWireError
-			if err := json.Unmarshal(buf.Bytes(), &wireErr); err != nil {
-				end.err = connect.NewError(connect.CodeInternal, err)
+			if err := json.Unmarshal(buf.Bytes(), &wireErr); err != nil || wireErr.Code == 0 {
+				// Not a Connect error payload (or one without an error code): a non-200
+				// response is never a success, so derive the error from the HTTP status.
+				end.err = connect.NewError(httpStatusCodeToRPC(statusCode), errors.New(http.StatusText(statusCode)))
 				return
 			}
 			end.err = wireErr.toConnectError()
